@@ -448,8 +448,24 @@ impl UserRx {
     }
 
     /// Enqueue an error into read half to be consumed by the user.
-    pub fn enqueue_error(&self, msg: String) {
+    pub fn enqueue_error(&mut self, msg: String) {
         let mut g = self.shared.locked.lock();
+        // What was received in order (and acknowledged) but did not fit the reader's queue yet
+        // goes first, beyond the queue's capacity if need be: the bytes are in memory either
+        // way, and the peer was told they arrived.
+        if !g.reader_dropped {
+            while self
+                .ooq
+                .send_front_if_fits(usize::MAX, |msg| {
+                    g.queue.push_back(match msg {
+                        OoqMessage::Payload(payload) => UserRxMessage::Payload(payload),
+                        OoqMessage::Eof => UserRxMessage::Eof,
+                    });
+                    Ok(())
+                })
+                .is_some()
+            {}
+        }
         g.queue.push_back(UserRxMessage::Error(msg));
         let waker = g.reader_waker.take();
         if let Some(waker) = waker {
